@@ -22,6 +22,12 @@ CLAIMED = {
   "note": "Trusted: Lean kernel + three standard axioms; the model's text rendering is tied by correspondence only (no text-level parse theorem); Intel HEX addresses are 16-bit and blocks must be byte/unit aligned (known finding F19 otherwise).",
   "technique": "Lean 4 proof (round-trip by list extensionality, induction) + byte-exact model/implementation correspondence",
  },
+ "C06": {
+  "text": "Lean 4 theorems (Casm/Props/C06.lean). Overlap checker: OInv (sorted, consecutive entries disjoint, sizes positive) is preserved by every accepted insertion; an insertion of positive size is accepted exactly when the range is disjoint from every stored range (insert_iff_disjoint); zero sizes are accepted and not stored; hence after any history the stored ranges are pairwise disjoint (no_two_items_share_a_bit). build_output over any bank table and any resolved item sequence (build_output_safe, by a loop invariant): the emitted items are exactly the items' bit strings in order, pairwise bit-disjoint, each inside its bank's window at outp + position with address position/unit + addr (position_formula), the output holds exactly their bits, every other bit is zero, and the length is the maximum of the written ends and the filled bank ends; bank_windows_disjoint for check_bank_overlap. Tie: random insertion histories through util::OverlapChecker and random bank programs through asm::assemble are compared with the model (error class, bits, spans), and the layout statement is recomputed from the implementation's own spans and bits.",
+  "design_ref": "DESIGN.md section 6, C06",
+  "note": "Trusted: Lean kernel + three standard axioms; binary_search_by modelled as lower bound (equal on lists with distinct sorted positions, which OInv guarantees); the layout model takes resolved items (bits, reserve sizes, alignments, addresses) - their resolution is C02's; usize overflow of cur_position + size is not modelled here (C19).",
+  "technique": "Lean 4 proof (loop invariant, induction over operation histories) + model/implementation correspondence",
+ },
 }
 
 NOT_YET = {}
